@@ -243,7 +243,10 @@ class C03(PropBase):
                 ek = rng.choice(["int", "str"])
                 elems = rng.sample([1, 2, 3, 5, 8, 13], rng.randint(1, 4)) if ek == "int" else rng.sample(["a", "b", "cc", "d", "xyz"], rng.randint(1, 4))
                 t = rng.choice([{"k": "dict", "a": [{"k": "int"}, {"k": ek}]}, {"k": "dict", "a": [{"k": "str"}, {"k": ek}]}, {"k": "list", "a": {"k": ek}},
-                                {"k": "tuplevar", "a": {"k": ek}}, {"k": "Mapping", "sp": "typing", "a": [{"k": "int"}, {"k": ek}]}, {"k": "deque", "a": {"k": ek}}])
+                                {"k": "tuplevar", "a": {"k": ek}}, {"k": "Mapping", "sp": "typing", "a": [{"k": "int"}, {"k": ek}]}, {"k": "deque", "a": {"k": ek}},
+                                # a union of collections: the member that rejects half-way must not leave the next one the remainder
+                                {"k": "union", "sp": "typing", "a": [{"k": "list", "a": {"k": "int"}}, {"k": "list", "a": {"k": "str"}}]},
+                                {"k": "union", "sp": "pipe", "a": [{"k": "tuplevar", "a": {"k": "dec"}}, {"k": "list", "a": {"k": ek}}, {"k": "none"}]}])
                 steps.append({"op": "unmarshal", "t": t, "mod": rng.choice(mods), "x": {rng.choice(["$iter", "$gen"]): elems}, "f12": ["one-shot"], "clean": None,
                               "oneshot_n": len(elems)})
                 continue
